@@ -9,12 +9,14 @@ Local Open Scope Z_scope.
 (* THE grammar theorem: for every well-formed time stamp in one of the three notations, every
    configuration (fixed or named journal zone, any default time) and whatever follows the
    text, the parser accepts exactly the text and yields the instant "civil time minus offset"
-   and the offset the specification assigns *)
+   and the offset the specification assigns, held as THE canonical pair of that instant (the
+   library's pair for the civil time, re-created from its nanosecond value) *)
 Theorem C16_parse_meaning : forall cfg a r,
   cfg_wf cfg -> ast_wf a -> sep_okb a r = true -> spec_in_rangeb cfg a = true ->
   exists z, parse_ts cfg (render a ++ r) = Some (z, r) /\
             jts_inst (z_ts z) = spec_inst cfg a /\ z_off z = spec_off cfg a /\
-            civil_to_jts (ast_civil cfg a) (ast_conv_off cfg a) = Some (z_ts z).
+            z_ts z = ts_canon (spec_inst cfg a) /\ ts_normal (z_ts z) /\
+            exists t0, civil_to_jts (ast_civil cfg a) (ast_conv_off cfg a) = Some t0 /\ jts_renorm t0 = Some (z_ts z).
 Proof. exact parse_render. Qed.
 Print Assumptions C16_parse_meaning.
 
@@ -96,42 +98,116 @@ Theorem C16_civil_monotone : forall y1 m1 d1 y2 m2 d2,
 Proof. exact epoch_day_mono. Qed.
 Print Assumptions C16_civil_monotone.
 
-(* ordering by instant: holds for every pair of time stamps outside the class of finding F17
-   (fractional second AND civil date on the other side of 1970-01-01 than the instant) ... *)
+(* every time stamp the parser returns - any configuration, any text - is a canonical pair:
+   second and nanosecond of the same sign, i.e. quotient and remainder of the truncated
+   division of the instant by 10^9 *)
+Theorem C16_parsed_canonical : forall cfg s z r, parse_ts cfg s = Some (z, r) ->
+  ts_normal (z_ts z) /\ z_ts z = ts_canon (jts_inst (z_ts z)).
+Proof. exact parsed_canonical. Qed.
+Print Assumptions C16_parsed_canonical.
+
+Theorem C16_parsed_whole_canonical : forall cfg s z, parse_ts_whole cfg s = Some z -> ts_normal (z_ts z).
+Proof. exact parsed_whole_canonical. Qed.
+Print Assumptions C16_parsed_whole_canonical.
+
+(* on canonical pairs the library's comparison of pairs IS the comparison of instants, its
+   equality of pairs IS equality of instants (and of the pairs themselves) *)
+Theorem C16_canonical_order_is_instant_order : forall a b, ts_normal a -> ts_normal b ->
+  jts_cmp a b = Z.compare (jts_inst a) (jts_inst b) /\
+  jts_eqb a b = (jts_inst a =? jts_inst b) /\
+  (jts_eqb a b = true <-> a = b).
+Proof. exact canonical_order_is_instant_order. Qed.
+Print Assumptions C16_canonical_order_is_instant_order.
+
+(* the canonical pair of an instant exists and is unique *)
+Theorem C16_canonical_exists : forall i, ts_normal (ts_canon i) /\ jts_inst (ts_canon i) = i.
+Proof. exact ts_canon_normal. Qed.
+Print Assumptions C16_canonical_exists.
+
+Theorem C16_canonical_unique : forall a b, ts_normal a -> ts_normal b -> jts_inst a = jts_inst b -> a = b.
+Proof. exact ts_canonical_unique. Qed.
+Print Assumptions C16_canonical_unique.
+
+(* the re-creation step of parse_timestamp changes neither the accepted texts nor the rest,
+   the instant or the offset: it only replaces the pair by the canonical one *)
+Theorem C16_renorm_accepts_same : forall cfg s, cfg_wf cfg ->
+  (parse_ts cfg s = None <-> parse_ts_alt cfg s = None) /\
+  forall zd z r, parse_ts_alt cfg s = Some (zd, z, r) ->
+    exists zn, parse_ts cfg s = Some (zn, r) /\ jts_renorm (z_ts zd) = Some (z_ts zn) /\ ts_normal (z_ts zn) /\
+               (TS_MIN_SEC * NS <= jts_inst (z_ts zd) -> jts_inst (z_ts zn) = jts_inst (z_ts zd) /\ z_off zn = z_off (ts_to_zoned z (z_ts zd))).
+Proof. exact renorm_accepts_same. Qed.
+Print Assumptions C16_renorm_accepts_same.
+
+(* ordering and equality by instant, for every pair of time stamps in every notation (no
+   excluded class: the hypothesis epoch_safe of the former statement is gone) ... *)
 Theorem C16_order_by_instant : forall cfg a1 a2 r1 r2,
   cfg_wf cfg -> ast_wf a1 -> ast_wf a2 -> sep_okb a1 r1 = true -> sep_okb a2 r2 = true ->
   spec_in_rangeb cfg a1 = true -> spec_in_rangeb cfg a2 = true ->
-  epoch_safe cfg a1 -> epoch_safe cfg a2 ->
   exists z1 z2, parse_ts cfg (render a1 ++ r1) = Some (z1, r1) /\ parse_ts cfg (render a2 ++ r2) = Some (z2, r2) /\
     jts_cmp (z_ts z1) (z_ts z2) = Z.compare (spec_inst cfg a1) (spec_inst cfg a2) /\
+    jts_eqb (z_ts z1) (z_ts z2) = (spec_inst cfg a1 =? spec_inst cfg a2) /\
     forall h1 h2, jheader_cmp (z_ts z1) h1 (z_ts z2) h2 = header_cmp (hdr_of z1 h1) (hdr_of z2 h2).
 Proof. exact order_by_instant. Qed.
 Print Assumptions C16_order_by_instant.
 
-(* ... and then the implementation's sort of the transaction set is Txn.sort_txns *)
-Theorem C16_sort_by_instant : forall l, Forall jt_ok l -> map snd (jsort_txns l) = sort_txns (map snd l).
-Proof. exact jsort_is_sort. Qed.
+(* ... indeed for ANY two texts the parser accepts under any configuration ... *)
+Theorem C16_parsed_order_by_instant : forall cfg s1 s2 z1 z2 r1 r2,
+  parse_ts cfg s1 = Some (z1, r1) -> parse_ts cfg s2 = Some (z2, r2) ->
+  jts_cmp (z_ts z1) (z_ts z2) = Z.compare (jts_inst (z_ts z1)) (jts_inst (z_ts z2)) /\
+  jts_eqb (z_ts z1) (z_ts z2) = (jts_inst (z_ts z1) =? jts_inst (z_ts z2)) /\
+  forall h1 h2, jheader_cmp (z_ts z1) h1 (z_ts z2) h2 = header_cmp (hdr_of z1 h1) (hdr_of z2 h2).
+Proof. exact parsed_order_by_instant. Qed.
+Print Assumptions C16_parsed_order_by_instant.
+
+(* ... so the implementation's sort of a set of parsed transactions is Txn.sort_txns (by
+   instant first); on the representation: whenever the pairs are canonical *)
+Theorem C16_sort_by_instant : forall cfg l, Forall (jt_parsed cfg) l -> map snd (jsort_txns l) = sort_txns (map snd l).
+Proof. exact jsort_parsed_is_sort. Qed.
 Print Assumptions C16_sort_by_instant.
 
-(* ... but NOT inside that class (F17, open): a later instant is ordered first, and two
-   spellings of one instant are unequal. Witness: 1970-01-01T00:00:00.5+01:00 against
-   1969-12-31T23:00:00.4Z resp. 1969-12-31T23:00:00.5Z *)
-Theorem C16_order_refuted :
-  exists cfg a1 a2 z1 z2,
-    cfg_wf cfg /\ ast_wf a1 /\ ast_wf a2 /\ spec_in_rangeb cfg a1 = true /\ spec_in_rangeb cfg a2 = true /\
-    parse_ts cfg (render a1) = Some (z1, []) /\ parse_ts cfg (render a2) = Some (z2, []) /\
-    spec_inst cfg a2 < spec_inst cfg a1 /\ jts_cmp (z_ts z1) (z_ts z2) = Lt /\
-    ~ epoch_safe cfg a1.
-Proof. exact order_refuted. Qed.
-Print Assumptions C16_order_refuted.
+Theorem C16_sort_canonical : forall l, Forall jt_ok l -> map snd (jsort_txns l) = sort_txns (map snd l).
+Proof. exact jsort_is_sort. Qed.
+Print Assumptions C16_sort_canonical.
 
-Theorem C16_equality_refuted :
-  exists cfg a1 a3 z1 z3,
-    cfg_wf cfg /\ ast_wf a1 /\ ast_wf a3 /\
-    parse_ts cfg (render a1) = Some (z1, []) /\ parse_ts cfg (render a3) = Some (z3, []) /\
-    spec_inst cfg a1 = spec_inst cfg a3 /\ jts_eqb (z_ts z1) (z_ts z3) = false /\ jts_cmp (z_ts z1) (z_ts z3) = Lt.
-Proof. exact equality_refuted. Qed.
-Print Assumptions C16_equality_refuted.
+(* WHY the re-creation is needed. The library layer alone (jiff 0.2.5: the Zoned the
+   alternatives of parse_timestamp build, before the instant is re-created) holds
+   1970-01-01T00:00:00.5+01:00 as the mixed-sign pair (-3600, +500000000): it orders this
+   later instant before 1969-12-31T23:00:00.4Z, and unequal to (and before)
+   1969-12-31T23:00:00.5Z, the same instant. A statement about the raw library layer only
+   (the former finding F17); tackler no longer compares such pairs ... *)
+Theorem C16_jiff_layer_refuted :
+  cfg_wf w_cfg /\ Forall ast_wf [w_a1; w_a2; w_a3] /\
+  Forall (fun a => spec_in_rangeb w_cfg a = true) [w_a1; w_a2; w_a3] /\
+  parse_ts_alt w_cfg (render w_a1) = Some (mkZoned w_j1 3600, ZFixed 3600, []) /\
+  parse_ts_alt w_cfg (render w_a2) = Some (mkZoned w_j2 0, ZFixed 0, []) /\
+  parse_ts_alt w_cfg (render w_a3) = Some (mkZoned w_j3 0, ZFixed 0, []) /\
+  spec_inst w_cfg w_a2 < spec_inst w_cfg w_a1 /\ jts_inst w_j2 < jts_inst w_j1 /\ jts_cmp w_j1 w_j2 = Lt /\
+  spec_inst w_cfg w_a1 = spec_inst w_cfg w_a3 /\ jts_inst w_j1 = jts_inst w_j3 /\
+  jts_eqb w_j1 w_j3 = false /\ jts_cmp w_j1 w_j3 = Lt /\
+  ts_normalb w_j1 = false /\
+  epoch_mixedb (ast_civil w_cfg w_a1) (ast_conv_off w_cfg w_a1) = true.
+Proof. exact jiff_layer_refuted. Qed.
+Print Assumptions C16_jiff_layer_refuted.
+
+(* ... the SAME witnesses through parse_timestamp as it is: canonical pairs, the later instant
+   last, the two spellings of one instant equal *)
+Theorem C16_witnesses_repaired :
+  parse_ts w_cfg (render w_a1) = Some (mkZoned w_n1 3600, []) /\
+  parse_ts w_cfg (render w_a2) = Some (mkZoned w_n2 0, []) /\
+  parse_ts w_cfg (render w_a3) = Some (mkZoned w_n1 0, []) /\
+  jts_renorm w_j1 = Some w_n1 /\ jts_renorm w_j2 = Some w_n2 /\ jts_renorm w_j3 = Some w_n1 /\
+  ts_normalb w_n1 = true /\ ts_normalb w_n2 = true /\
+  jts_inst w_n1 = spec_inst w_cfg w_a1 /\ jts_inst w_n2 = spec_inst w_cfg w_a2 /\
+  jts_cmp w_n1 w_n2 = Gt /\ jts_cmp w_n2 w_n1 = Lt /\
+  jts_eqb w_n1 w_n1 = true /\ jts_cmp w_n1 w_n1 = Eq.
+Proof. exact witnesses_repaired. Qed.
+Print Assumptions C16_witnesses_repaired.
+
+(* outside that class the library's own pair is already canonical *)
+Theorem C16_jiff_layer_canonical_outside_class : forall c off t, 1 <= cv_m c <= 12 -> 0 <= cv_ns c < NS ->
+  epoch_mixedb c off = false -> civil_to_jts c off = Some t -> ts_normal t.
+Proof. exact civil_to_jts_normal. Qed.
+Print Assumptions C16_jiff_layer_canonical_outside_class.
 
 (* report zone: the entries and their order do not depend on it (it is not an argument of
    the sort; the figures of C02/C03/C07 do not take it either) ... *)
@@ -161,7 +237,7 @@ Print Assumptions C16_order_oracle_sound.
 (* non-vacuity: four spellings (offset, Z, journal zone +02:00, date with default time) *)
 Example C16_example :
   cfg_wf ex_cfg /\ Forall ast_wf [ex_a1; ex_a2; ex_a3; ex_a4] /\
-  Forall (fun a => spec_in_rangeb ex_cfg a = true /\ epoch_safe ex_cfg a) [ex_a1; ex_a2; ex_a3; ex_a4] /\
+  Forall (fun a => spec_in_rangeb ex_cfg a = true) [ex_a1; ex_a2; ex_a3; ex_a4] /\
   map (fun a => option_map (fun zr => (jts_inst (z_ts (fst zr)), z_off (fst zr), snd zr)) (parse_ts ex_cfg (render a)))
       [ex_a1; ex_a2; ex_a3; ex_a4]
   = [Some (1711845000250000000, 10800, []); Some (1711845000250000000, 0, []);
